@@ -69,7 +69,7 @@ ObsLast(e) ==
       [] r.op = "cmpstatus" /\ "exc" \notin DOMAIN r ->
             [op |-> "cmpstatus", ok |-> ToSet(r.ok), missing |-> ToSet(r.missing), new |-> ToSet(r.new), deleted |-> ToSet(r.deleted)]
       [] r.op = "xstatus" /\ "exc" \notin DOMAIN r -> [op |-> "xstatus", new |-> ToSet(r.new), missing |-> ToSet(r.missing)]
-      [] r.op = "transfer" -> [op |-> "transfer", transferred |-> ToSet(r.transferred), failed |-> ToSet(r.failed)]
+      [] r.op = "transfer" /\ "exc" \notin DOMAIN r -> [op |-> "transfer", transferred |-> ToSet(r.transferred), failed |-> ToSet(r.failed)]
       [] r.op = "add" -> [op |-> "add", new |-> ToSet(r.new)]
       [] OTHER -> r
 
@@ -100,7 +100,7 @@ Resync ==
                /\ todo' = r.new \cap Dirs /\ loose' = r.new \cap Files
                /\ ResetXfer /\ nx' = nx + 1
           ELSE /\ ph' = IF op \in {"TransferEnd", "Abort"} THEN "idle" ELSE ph
-               /\ failed' = IF r.op = "transfer" THEN r.failed ELSE failed
+               /\ failed' = IF r.op = "transfer" /\ "exc" \notin DOMAIN r THEN r.failed ELSE failed
                /\ nx' = nx
                /\ UNCHANGED <<xs, todo, cur, bound, curFails, pend, loose, okDirs, batch, lost, bk>>
        /\ UNCHANGED <<unfin, dev>>
@@ -139,12 +139,16 @@ Judge ==
     /\ ((\A s \in Stores : s \notin opened' => \A o \in Oids : T[s][o] \in {Absent, "ok_u", "ok_p"})
             \/ Say("VERDICT", "C01", "Addressed"))
     /\ (e.aliens = <<>> \/ Say("VERDICT", "C01", "AlienObject"))
+    \* an operation may refuse (a directory object it must read is not there, a read-only handle asked to write); it never
+    \* ends in any other error - whichever property is being decided relies on the operation giving its answer
+    /\ (("exc" \in DOMAIN L => L.exc \in {"FileNotFoundError", "ObjectDBPermissionError"})
+            \/ Say("VERDICT", "*", "OperationEndedInUnexpectedError"))
     /\ ((ph' = "idle" => \A s \in Stores : (Local(s) /\ s \notin opened') =>
                 \A o \in Oids : T[s][o] = "ok_u" => o \in unfin') \/ Say("VERDICT", "C01", "Protected"))
     /\ ((op \notin {"Tamper", "ExtDelete", "Gc"} => C07_IntactUnharmed(S, T)) \/ Say("VERDICT", "C07", "IntactUnharmed"))
     /\ ((op \in QueryOps => C07_NoBlessing(S, T)) \/ Say("VERDICT", "C07", "CorruptObjectBlessed"))
     \* ---- end of a transfer -------------------------------------------------
-    /\ (op = "TransferEnd" /\ L.op = "transfer") =>
+    /\ (op = "TransferEnd" /\ L.op = "transfer" /\ ~Refusal(L)) =>
          /\ (C11_Disjoint(L) \/ Say("VERDICT", "C11", "Disjoint"))
          /\ (C11_Partition(L) \/ Say("VERDICT", "C11", "Partition"))
          /\ ((xs.src \notin opened => C11_Arrived(L, T)) \/ Say("VERDICT", "C11", "Arrived"))
